@@ -88,6 +88,11 @@ impl<M: AlignMarker> Drop for Node<M> {
     fn drop(&mut self) {
         let wcell = circ::verif::atomic_weak_addr(&self.wlink);
         crate::shadow::hook_drop(self.id, wcell);
+        if crate::shadow::installed() {
+            // stack span over which payload destructors of this thread have run (nesting depth)
+            let probe = 0u8;
+            crate::shadow::shadow().note_dtor_stack(crate::sched::my_tid(), &probe as *const u8 as usize);
+        }
         self.canary.store(CANARY_DEAD, Relaxed);
         let api = DTOR_API.load(Relaxed);
         if api != 0 && crate::shadow::installed() && crate::sched::my_tid() != crate::sched::NONE {
